@@ -87,13 +87,11 @@ class bin_stream(object):
             return 0
 
         # Get initial bytes
-        if n > self.getlen() * 8:
-            raise IOError('not enough bits %r %r' % (n, len(self.bin) * 8))
         byte_start = start // 8
         byte_stop = (start + n + 7) // 8
         temp = self.getbytes(byte_start, byte_stop - byte_start)
-        if not temp:
-            raise IOError('cannot get bytes')
+        if len(temp) != byte_stop - byte_start:
+            raise IOError('not enough bits %r %r' % (n, len(temp) * 8))
 
         # Init
         start = start % 8
